@@ -376,7 +376,9 @@ def startSelf (E : Engine) (d : Defects) (cx : Ctx) (t : Nat) (sf0 : Rec) (w : W
   let (sf, w) :=
     if sf.isGenerated && ns != .missing && (sf.isOverride || detectOverride (sf.stamp.getD .missing) ns) then
       let w := ev w (.warnOverride t)
-      let sf := if !sf.isOverride then setOverride w t sf R else sf
+      -- (also when the override is already known: the file may have been edited again, and the new
+      -- stamp is recorded with the flag kept — repaired in /repo, see known_findings.json)
+      let sf := setOverride w t sf R
       (sf, setRec w t sf)
     else (sf, w)
   if existsF w t && (sf.isOverride || !sf.isGenerated) then
